@@ -58,7 +58,7 @@ Print Assumptions C28_guards_partial.
 Theorem C28_fixes_present : key_fields_skips_empty && det_start_guards_rate && det_rate_le_1_keeps && http_has_panic_catcher &&
   validation_rejects_negative_durations && rates_clamped && batch_ticker_clamped &&
   (ema_throughput_interval_bounded && duration_bounds_keep_fraction) && rules_draw_guarded &&
-  queue_sizes_validated_nonnegative = true.
+  queue_sizes_validated_nonnegative && root_field_skipped_without_root = true.
 Proof. exact fixes_present. Qed.
 Print Assumptions C28_fixes_present.
 
@@ -128,6 +128,19 @@ Print Assumptions C28_worker_queue_never_panics.
 Theorem C28_worker_queue_refuted_before_fix : queue_size_accepted false (-1) = true /\ worker_queue (-1) 1 = None.
 Proof. exact worker_queue_refuted_before_fix. Qed.
 Print Assumptions C28_worker_queue_refuted_before_fix.
+
+(* sample/rules.go extractValueFromSpan: for every field list, with or without a root span, with the nested-field
+   fallback on or off, the local span variable is not nil when it is dereferenced (the `root.`-prefixed field of a
+   rootless trace is skipped BEFORE the variable is assigned — extracted fact); the flattened variant that assigns
+   first dereferences nil on a rootless trace with CheckNestedFields. *)
+Theorem C28_extract_value_never_nil : forall has_root nested fields,
+  extract_value root_field_skipped_without_root has_root nested fields <> None.
+Proof. exact extract_value_gen_safe. Qed.
+Print Assumptions C28_extract_value_never_nil.
+
+Theorem C28_extract_value_flattened_refuted : extract_value false false true [(true, false)] = None.
+Proof. exact extract_value_flattened_refuted. Qed.
+Print Assumptions C28_extract_value_flattened_refuted.
 
 (* Non-vacuity: the models compute the documented results on ordinary inputs *)
 Example C28_nonvacuous :
